@@ -163,6 +163,68 @@ def main(repo, out):
         else:
             unrec.append("prune_old_logs: `%s`" % frag)
 
+    # the three expressions the model's `prune` is built from, read (not just recognised) and pinned by RollingTie.v:
+    # which predicate each configured affix is tested with, what the files are sorted by, how many are taken
+    prune_pred = []
+    for affix, field in (("prefix", "log_filename_prefix"), ("suffix", "log_filename_suffix")):
+        m = re.search(r"if let Some\(%s\) = &self\.%s \{ if (!?)filename\.(\w+)\(%s\) \{ return None; \} \}" % (affix, field, affix), pr)
+        if m:
+            prune_pred.append((affix, ("not " if m.group(1) else "") + m.group(2)))
+        else:
+            unrec.append("prune_old_logs: test of the configured %s" % affix)
+    m = re.search(r"if self\.log_filename_prefix\.is_none\(\) && self\.log_filename_suffix\.is_none\(\) && (\w+)::parse\(filename, &self\.date_format\)\.(\w+)\(\) \{ return None; \}", pr)
+    if m:
+        prune_pred.append(("neither", "%s::parse %s" % (m.group(1), m.group(2))))
+    else:
+        unrec.append("prune_old_logs: date-shape test when neither prefix nor suffix is configured")
+    m = re.search(r"let (\w+) = metadata\.(\w+)\(\)\.ok\(\)\?; Some\(\(entry, \1\)\)", pr)
+    m2 = re.search(r"files\.(\w+)\(\|\(_, (\w+)\)\| (\*?)\2\);", pr)
+    prune_sort = "%s by %s of metadata.%s()" % (m2.group(1), m2.group(3) + "key", m.group(2)) if (m and m2) else "?"
+    if prune_sort == "?":
+        unrec.append("prune_old_logs: sort expression")
+    m = re.search(r"for \(file, _\) in files\.iter\(\)\.(\w+)\((.*?)\) \{ if let Err\(error\) = fs::remove_file\(file\.path\(\)\)", pr)
+    prune_count = "%s %s" % (m.group(1), m.group(2)) if m else "?"
+    if not m:
+        unrec.append("prune_old_logs: which files are removed (for .. in files.iter().take(..))")
+
+    # ---- advance_date: the value stored and the exchange
+    m = re.search(r"let next_date = (self \.rotation \.next_date\(&now\) \.map\(\|date\| date\.unix_timestamp\(\) as usize\) \.unwrap_or\(0\)); "
+                  r"self ?\.next_date \.(\w+)\((\w+), (\w+), Ordering::\w+, Ordering::\w+\) \.is_ok\(\)$", ad)
+    if m:
+        adv_stored = "%s(%s -> %s) where %s = %s" % (m.group(2), m.group(3), m.group(4), m.group(4), m.group(1).replace(" .", "."))
+    else:
+        adv_stored = "?"
+        unrec.append("advance_date: stored expression / exchange arguments")
+
+    # ---- Builder defaults and setters (builder.rs)
+    bsrc = strip_comments(open(os.path.join(repo, "tracing-appender/src/rolling/builder.rs")).read())
+    bf = fns_in(bsrc)
+    bdef = []
+    nb = norm(bf["new"][1]) if "new" in bf and bf["new"][1] is not None else ""
+    m = re.fullmatch(r"Self \{ rotation: Rotation::(\w+), prefix: (\w+), suffix: (\w+), max_files: (\w+), \}", nb)
+    if m:
+        bdef = [("rotation", m.group(1)), ("prefix", m.group(2)), ("suffix", m.group(3)), ("max_files", m.group(4))]
+    else:
+        unrec.append("Builder::new defaults")
+    bset = []
+    for fn, var in (("filename_prefix", "prefix"), ("filename_suffix", "suffix")):
+        bb = norm(bf[fn][1]) if fn in bf and bf[fn][1] is not None else ""
+        if re.fullmatch(r"let %s = %s\.into\(\); let %s = if %s\.is_empty\(\) \{ None \} else \{ Some\(%s\) \}; Self \{ %s, \.\.self \}" % ((var,) * 6), bb):
+            bset.append((fn, "empty is None"))
+        else:
+            unrec.append("Builder::%s" % fn)
+    bb = norm(bf["max_log_files"][1]) if "max_log_files" in bf and bf["max_log_files"][1] is not None else ""
+    if re.fullmatch(r"Self \{ max_files: Some\(n\), \.\.self \}", bb):
+        bset.append(("max_log_files", "Some n"))
+    else:
+        unrec.append("Builder::max_log_files")
+    bb = norm(bf["build"][1]) if "build" in bf and bf["build"][1] is not None else ""
+    if bb != "RollingFileAppender::from_builder(self, directory)":
+        unrec.append("Builder::build")
+    fb = body("from_builder")
+    if not re.search(r"let \(state, writer\) = Inner::new\( now, rotation\.clone\(\), directory, prefix\.clone\(\), suffix\.clone\(\), \*max_files, \)\?;", fb):
+        unrec.append("from_builder: Inner::new(now, rotation, directory, prefix, suffix, max_files)")
+
     # ---- refresh_writer: order of effects
     rw = body("refresh_writer")
     order = []
@@ -236,6 +298,12 @@ def main(repo, out):
     G.append("Definition gen_prune_sort : string := %s." % coq_str(sort_key))
     G.append("Definition gen_prune_filters : list string := [%s]." % "; ".join(coq_str(x) for x in filt))
     G.append("Definition gen_refresh_order : list string := [%s]." % "; ".join(coq_str(x) for x in order))
+    G.append("Definition gen_prune_pred : list (string * string) := [%s]." % "; ".join("(%s, %s)" % (coq_str(k), coq_str(v)) for k, v in prune_pred))
+    G.append("Definition gen_prune_sort_expr : string := %s." % coq_str(prune_sort))
+    G.append("Definition gen_prune_count_expr : string := %s." % coq_str(prune_count))
+    G.append("Definition gen_advance_stored : string := %s." % coq_str(adv_stored))
+    G.append("Definition gen_builder_defaults : list (string * string) := [%s]." % "; ".join("(%s, %s)" % (coq_str(k), coq_str(v)) for k, v in bdef))
+    G.append("Definition gen_builder_setters : list (string * string) := [%s]." % "; ".join("(%s, %s)" % (coq_str(k), coq_str(v)) for k, v in bset))
     G.append("Definition gen_recheck : bool := %s." % ("true" if recheck else "false"))
     G.append("Definition gen_yield0 : bool := %s." % ("true" if yield0 else "false"))
     G.append("Definition gen_unrecognised : list string := [%s]." % "; ".join(coq_str(u) for u in unrec))
